@@ -275,6 +275,13 @@ theorem ow_roundtrip (o : OWData) (img : List UInt8) (h : owImage o = .ok img)
       .ok ⟨o.pins.toNat, o.vid.toNat, o.pid.toNat, owExpect o.elements.reverse, true, true⟩ :=
   ow_roundtrip_aux o img h hnd m
 
+/-- `write_data` produces an image for EVERY representable content: 32-bit pins, byte vid/pid, elements with ids of the
+mapping and Latin-1 strings, as long as the element section fits its length byte. -/
+theorem ow_image_total (o : OWData) (hp : 0 ≤ o.pins ∧ o.pins < 2 ^ 32) (hv : 0 ≤ o.vid ∧ o.vid < 256) (hi : 0 ≤ o.pid ∧ o.pid < 256)
+    (he : ∀ p ∈ o.elements, p.1 ∈ Gen.C14.owIds ∧ p.2.length < 256 ∧ ∀ c ∈ p.2, c < 256)
+    (hs : owSectLenOf o.elements < 256) :
+    ∃ img, owImage o = .ok img ∧ img.length = 11 + owSectLenOf o.elements := ow_image_total_aux o hp hv hi he hs
+
 /-- ... and so every element reads back with the written value (dict equality does not depend on the order). -/
 theorem ow_roundtrip_lookup (o : OWData) (k : Nat) (v : List Nat) (hkv : (k, v) ∈ o.elements) :
     (k, v.map UInt8.ofNat) ∈ owExpect o.elements.reverse := by
